@@ -5,6 +5,7 @@
 
 #include "rkcommon/tasking/parallel_for.h"
 #include "rkcommon/tasking/parallel_foreach.h"
+#include "rkcommon/tasking/schedule.h"
 #include "rkcommon/tasking/tasking_system_init.h"
 
 #include <atomic>
@@ -40,7 +41,8 @@ struct Case
   int inner = 0;     // inner loop size 0..64
   int recheck = 0;   // re-read the counters after a short delay
   int nmode = 0;     // 1: n is taken relative to the scheduler's partition count T*(T-1)
-  auto tie() { return std::tie(api, type, n, block, threads, cost, nest, inner, recheck, nmode); }
+  int backlog = 0;   // scheduled tasks already queued (workers busy) when the loop is called: 0, ~300, ~600
+  auto tie() { return std::tie(api, type, n, block, threads, cost, nest, inner, recheck, nmode, backlog); }
 };
 static const int BLOCKS[] = {1, 2, 3, 7, 16, 64};
 
@@ -183,10 +185,83 @@ static void run_case(const Case &c, pbt::Ctx &ctx)
   } else if (c.nmode == 2 && c.n >= 0) {
     cc.n = (long long)g_threads * (c.n % 6 + 1) + ((c.n / 8) % 3 - 1);
   }
-  return run_case_impl(cc, ctx);
+  // A loop must also be correct when the scheduler is not idle: workers busy with long tasks and a few hundred
+  // scheduled tasks already queued behind the calling thread (the internal backend's per-thread pipe holds 256
+  // entries; beyond that it runs partitions inline).  Threaded backends only - schedule() is synchronous on Debug.
+  const int backlog = (THREADED && g_threads >= 2) ? c.backlog : 0;
+  if (backlog <= 0)
+    return run_case_impl(cc, ctx);
+  auto release = std::make_shared<std::atomic<bool>>(false);
+  auto ranBacklog = std::make_shared<std::atomic<int>>(0);
+  const int blockers = std::min(g_threads - 1, 8);
+  for (int b = 0; b < blockers; ++b)
+    schedule([release]() {
+      auto t0 = std::chrono::steady_clock::now();
+      while (!release->load() && std::chrono::steady_clock::now() - t0 < std::chrono::seconds(20))
+        std::this_thread::yield();
+    });
+  std::this_thread::sleep_for(std::chrono::milliseconds(2));  // let the workers pick the blockers up
+  for (int i = 0; i < backlog; ++i)
+    schedule([ranBacklog]() { ranBacklog->fetch_add(1); });
+  ctx.label("scheduler-backlog");
+  try {
+    run_case_impl(cc, ctx);
+  } catch (...) {
+    release->store(true);
+    throw;
+  }
+  release->store(true);
+  // the queued tasks themselves must each have run exactly once as well, once the workers are free again
+  auto t0 = std::chrono::steady_clock::now();
+  while (ranBacklog->load() < backlog && std::chrono::steady_clock::now() - t0 < std::chrono::seconds(60))
+    std::this_thread::sleep_for(std::chrono::microseconds(200));
+  std::this_thread::sleep_for(std::chrono::milliseconds(1));
+  PBT_ASSERT_MSG(ranBacklog->load() == backlog, "of " << backlog << " tasks queued before the loop " << ranBacklog->load() << " ran");
+}
+// parallel_in_blocks_of for counts beyond 2^31 (64-bit and unsigned index types, large blocks): only the block
+// boundaries are recorded - they must tile [0,n) exactly - the elements are not visited one by one
+template <class I, int B>
+static void hugeBlocks(unsigned long long n, pbt::Ctx &ctx)
+{
+  std::mutex bm;
+  std::vector<std::pair<unsigned long long, unsigned long long>> blocks;
+  parallel_in_blocks_of<B>((I)n, [&](I b, I e) {
+    std::lock_guard<std::mutex> l(bm);
+    if (blocks.size() < (1u << 20))
+      blocks.emplace_back((unsigned long long)b, (unsigned long long)e);
+  });
+  std::sort(blocks.begin(), blocks.end());
+  unsigned long long at = 0;
+  for (auto &be : blocks) {
+    PBT_ASSERT_MSG(be.first == at, "n=" << n << " B=" << B << ": blocks do not tile [0,n): a block starts at " << be.first << " expected " << at);
+    PBT_ASSERT_MSG(be.second > be.first && be.second - be.first <= (unsigned long long)B, "n=" << n << " B=" << B << ": block [" << be.first << "," << be.second << ") violates 0 < size <= B");
+    at = be.second;
+  }
+  PBT_ASSERT_MSG(at == n, "n=" << n << " B=" << B << ": blocks end at " << at);
+  ctx.label("huge-n-block-tiling");
+}
+static void run_huge(const Case &c, pbt::Ctx &ctx)
+{
+  // n around 2^31, 2^32, 2^33 and the int / unsigned maxima; the count must leave room for n + B - 1 in the index type
+  static const unsigned long long bases[] = {(1ull << 31) - 70000, (1ull << 31), (1ull << 31) + 1, (1ull << 32) - (1ull << 21), (1ull << 32) + 12345, (1ull << 33) + 7, 3000000000ull};
+  unsigned long long n = bases[(unsigned long long)(c.n < 0 ? -c.n : c.n) % 7] + (unsigned long long)(c.inner * 1000003 % 65537);
+  bool big = c.block & 1;
+  switch (((c.type % 4) + 4) % 4) {
+  case 0:  // unsigned: n + B - 1 must fit in 32 bits
+    if (n > 0xFFFFFFFFull - (1ull << 20))
+      n = 0xFFFFFFFFull - (1ull << 20) - (n % 1000);
+    big ? hugeBlocks<unsigned, 1 << 20>(n, ctx) : hugeBlocks<unsigned, 65536>(n, ctx);
+    break;
+  case 1: big ? hugeBlocks<long long, 1 << 20>(n, ctx) : hugeBlocks<long long, 65536>(n, ctx); break;
+  case 2: big ? hugeBlocks<unsigned long long, 1 << 20>(n, ctx) : hugeBlocks<unsigned long long, 65536>(n, ctx); break;
+  default: big ? hugeBlocks<size_t, 1 << 20>(n, ctx) : hugeBlocks<size_t, 65536>(n, ctx); break;
+  }
+  ctx.nt(THREADED && g_threads >= 2);
 }
 static void run_case_impl(const Case &c, pbt::Ctx &ctx)
 {
+  if (c.api == 4)
+    return run_huge(c, ctx);
   const int api = ((c.api % 4) + 4) % 4;
   const int nest = ((c.nest % 3) + 3) % 3;
   const long long m = nest ? c.inner % 65 : 0;
@@ -347,12 +422,13 @@ static rc::Gen<Case> genCase()
       {2, gen::map(pbt::range<long long>(1, 40), [](long long k) { return k * 64 - 1; })},           // kB-1
       {1, gen::element<long long>(254, 255, 256, 32766, 32767, 32768)},                              // small index type maxima
       {3, pbt::range<long long>(0, 65536)}, {1, pbt::range<long long>(65536, 1 << 20)}});
-  return gen::build<Case>(gen::set(&Case::api, gen::weightedElement<int>({{4, 0}, {1, 1}, {1, 2}, {3, 3}})), gen::set(&Case::type, pbt::range<int>(0, 7)),
+  return gen::build<Case>(gen::set(&Case::api, gen::weightedElement<int>({{8, 0}, {2, 1}, {2, 2}, {6, 3}, {1, 4}})), gen::set(&Case::type, pbt::range<int>(0, 7)),
       gen::set(&Case::n, count), gen::set(&Case::block, pbt::range<int>(0, 5)),
       gen::set(&Case::threads, gen::weightedOneOf<int>({{1, gen::just(1)}, {4, pbt::range<int>(2, 8)}, {1, pbt::range<int>(9, 32)}})),
       gen::set(&Case::cost, gen::weightedElement<int>({{3, 0}, {1, 1}, {1, 2}, {1, 3}})), gen::set(&Case::nest, gen::weightedElement<int>({{4, 0}, {1, 1}, {1, 2}})),
       gen::set(&Case::inner, pbt::range<int>(0, 64)), gen::set(&Case::recheck, pbt::range<int>(0, 3)),
-      gen::set(&Case::nmode, gen::weightedElement<int>({{3, 0}, {2, 1}, {1, 2}})));
+      gen::set(&Case::nmode, gen::weightedElement<int>({{3, 0}, {2, 1}, {1, 2}})),
+      gen::set(&Case::backlog, gen::weightedOneOf<int>({{5, gen::just(0)}, {1, pbt::range<int>(250, 340)}, {1, pbt::range<int>(500, 700)}})));
 }
 
 static void register_properties()
